@@ -125,8 +125,8 @@ Lemma manifest_keep_is_item r :
   p_keep (set_n "len(each(arg1).head.metadata.annotations)" (match aget policy_key (r_fields r) with Some _ => 1%Z | None => 0%Z end)
          (set_b "has(each(arg1).head.metadata.annotations[helm.sh/resource-policy])"
                 (match aget policy_key (r_fields r) with Some _ => true | None => false end)
-         (set_str "ToLower(TrimSpace(each(arg1).head.metadata.annotations[helm.sh/resource-policy]))"
-                (match aget policy_key (r_fields r) with Some v => to_lower (trim_space v) | None => "" end) env0))).
+         (set_str "each(arg1).head.metadata.annotations[helm.sh/resource-policy]"
+                (match aget policy_key (r_fields r) with Some v => v | None => "" end) env0))).
 Proof. unfold manifest_keep. destruct (aget policy_key (r_fields r)); reflexivity. Qed.
 
 (* rollback's target revision: the model computes it in nat (rev cur - 1 truncates at 0), Go
